@@ -8,7 +8,7 @@ import hashlib, json, os, random, re, subprocess, sys, time, traceback
 
 VERIF = os.path.dirname(os.path.dirname(os.path.abspath(__file__)))
 LEAN = os.path.join(VERIF, 'lean')
-REPO = os.environ.get('SPYNE_REPO', '/repo')
+REPO = os.environ.get('SPYNE_REPO') or '/repo'
 EVID = os.path.join(VERIF, 'evidence')
 REPLAYS = os.path.join(EVID, 'replays')
 ALLOWED_AXIOMS = {'propext', 'Quot.sound', 'Classical.choice'}
@@ -244,14 +244,31 @@ class Ctx:
 
     def finding(self, fid, what, replay_obj):
         """report a concrete failure of the property on the implementation: a known finding or a violation"""
+        self._finding_counts = getattr(self, '_finding_counts', {})
+        self._finding_counts[fid] = self._finding_counts.get(fid, 0) + 1
         k = self.known_match(fid)
         if k:
             line = 'KNOWN-FINDING: property=%s %s: %s' % (self.prop, fid, k.get('what', what))
             if line not in self.known:
                 self.known.append(line)
             return False
+        self.found_input = True
+        if self._finding_counts[fid] > 1:
+            return True     # one replay (the first instance) per finding id; the rest are counted
         self.violation(dict(replay_obj, finding_id=fid, what=what), found_input=True)
         return True
+
+    def disagree(self, op, query, impl, model):
+        """T2: model and implementation differ on `query` (not by itself a violation of the property)"""
+        tag = 'corr:' + op
+        if tag not in self.corr_broken:
+            self.corr_broken.append(tag)
+        self.hit('t2-disagree:' + op)
+        self.cov['t2_disagreements'] = self.cov.get('t2_disagreements', 0) + 1
+        self._disagreements = getattr(self, '_disagreements', [])
+        if len(self._disagreements) < 8:
+            self._disagreements.append({'op': op, 'query': query, 'impl': impl, 'model': model})
+            self.log('T2 disagreement', op, str(query)[:200], 'impl=', str(impl)[:200], 'model=', str(model)[:200])
 
     def violation(self, replay_obj, found_input):
         os.makedirs(REPLAYS, exist_ok=True)
@@ -270,9 +287,19 @@ class Ctx:
     def finish(self):
         # a broken obligation / correspondence with no concrete failing input found
         if (self.proof_broken or self.corr_broken) and not self.found_input:
-            self.violation({'what': 'property no longer shown to hold', 'broken_theorems': self.proof_broken,
+            self.violation({'what': 'property no longer shown to hold: a proof obligation or the model/implementation '
+                                    'correspondence broke and the failing-input search found no input on which the '
+                                    'property fails on the implementation',
+                            'broken_theorems': self.proof_broken,
                             'broken_correspondence': self.corr_broken,
+                            'disagreements': getattr(self, '_disagreements', []),
                             'build_log_tail': self.proof.get('build_log_tail', '')}, found_input=False)
+        elif self.proof_broken or self.corr_broken:
+            # concrete failing inputs were found; keep what else broke next to them
+            os.makedirs(REPLAYS, exist_ok=True)
+            json.dump({'broken_theorems': self.proof_broken, 'broken_correspondence': self.corr_broken,
+                       'disagreements': getattr(self, '_disagreements', [])},
+                      open(os.path.join(REPLAYS, self.prop + '-also-broken.json'), 'w'), indent=1, default=str)
         wall = time.time() - self.t0
         cov = dict(self.cov)
         cov.update({
@@ -284,6 +311,7 @@ class Ctx:
             'distribution': self.dist,
             'proof_broken': self.proof_broken, 'correspondence_broken': self.corr_broken,
             'known_findings_hit': self.known,
+            'finding_counts': getattr(self, '_finding_counts', {}),
             'repo_head': sh('git -C %s rev-parse HEAD' % REPO)[1].strip(),
             'repo_dirty_hash': hashlib.sha1(sh('git -C %s diff' % REPO)[1].encode()).hexdigest()[:12],
         })
